@@ -1214,7 +1214,17 @@ func (x *Exec) typeAssert(fr *frame, s *State, in *ssa.TypeAssert) {
 		x.setVal(fr, in, out)
 		return
 	}
-	if x.safety {
+	fromPool := false
+	if c, isCall := in.X.(*ssa.Call); isCall {
+		if callee := c.Call.StaticCallee(); callee != nil && x.E.fnKey(callee) == "(*sync.Pool).Get" {
+			fromPool = true
+		}
+	}
+	if x.safety && fromPool {
+		// pool discipline: what a pool hands out has the type its New function and every Put give it
+		x.C.Trusted["a type assertion applied directly to the result of (*sync.Pool).Get is assumed to succeed (every Put and the pool's New use that type; not checked)"] = true
+		x.C.Assume(Implies(s.Reach, ok))
+	} else if x.safety {
 		x.C.Oblige(x.oblName(fr.fn, "typeassert"), "typeassert", x.pos(in.Pos()), "type assertion succeeds", s.Reach, ok)
 	} else {
 		x.C.Assume(Implies(s.Reach, ok))
